@@ -222,8 +222,14 @@ func main() {
 	}
 	buildS := time.Since(start).Seconds()
 
-	base := []string{"VSIM_PROP=" + *prop, "VSIM_TIER=" + *tier, "VSIM_SEED=" + strconv.FormatUint(seed, 10), "VSIM_OUT=" + scratch}
 	findings := loadFindings()
+	var knownSigs []string
+	for _, f := range findings {
+		if f.Property == *prop && f.Status == "known" {
+			knownSigs = append(knownSigs, f.Signature)
+		}
+	}
+	base := []string{"VSIM_KNOWN=" + strings.Join(knownSigs, "\n"), "VSIM_PROP=" + *prop, "VSIM_TIER=" + *tier, "VSIM_SEED=" + strconv.FormatUint(seed, 10), "VSIM_OUT=" + scratch}
 	replayDir := filepath.Join(verifDir, "replays")
 	evidenceDir := filepath.Join(verifDir, "evidence")
 	if os.Getenv("VERIF_NO_EVIDENCE") != "" {
@@ -236,7 +242,7 @@ func main() {
 	// ---- replay mode
 	if *replay != "" {
 		abs, _ := filepath.Abs(*replay)
-		s, out, err := worker(append(base[:1:1], "VSIM_MODE=replay", "VSIM_TAPE="+abs, "VSIM_TRACE=1"), 30*time.Minute)
+		s, out, err := worker(append(base[:2:2], "VSIM_MODE=replay", "VSIM_TAPE="+abs, "VSIM_TRACE=1"), 30*time.Minute)
 		if err != nil {
 			die(2, "replay failed: %v\n%s", err, out)
 		}
@@ -359,7 +365,13 @@ func main() {
 			defer wg.Done()
 			for {
 				mu.Lock()
-				if werr != nil || int(next) >= targetRuns || time.Now().After(sweepDeadline) || len(viols) >= 40 {
+				nUnlisted := 0
+				for _, v := range viols {
+					if matchFinding(findings, *prop, v.Signature) == nil {
+						nUnlisted++
+					}
+				}
+				if werr != nil || int(next) >= targetRuns || time.Now().After(sweepDeadline) || nUnlisted >= 40 {
 					mu.Unlock()
 					return
 				}
@@ -460,7 +472,7 @@ func main() {
 			os.WriteFile(final, b, 0644)
 		}
 		// replay in a fresh process
-		rs, rout, rerr := worker(append(base[:1:1], "VSIM_MODE=replay", "VSIM_TAPE="+final), 20*time.Minute)
+		rs, rout, rerr := worker(append(base[:2:2], "VSIM_MODE=replay", "VSIM_TAPE="+final), 20*time.Minute)
 		exact := "fresh-process replay reproduced it exactly"
 		if rerr != nil || rs.Replay == nil {
 			die(2, "replay of %s failed: %v\n%s", final, rerr, rout)
